@@ -2,6 +2,7 @@ package catalog
 
 import (
 	"encoding/json"
+	"sync"
 
 	"github.com/jsightapi/jsight-schema-core/bytes"
 	"github.com/jsightapi/jsight-schema-core/notations/regex"
@@ -11,6 +12,29 @@ import (
 
 type ExchangeRegexSchema struct {
 	*regex.RSchema
+
+	// example keeps the once generated example, because the regex example
+	// generator returns a new value on every call.
+	example *regexExample
+}
+
+type regexExample struct {
+	once  sync.Once
+	value []byte
+	err   error
+}
+
+// Example returns the same example on every call.
+func (e ExchangeRegexSchema) Example() ([]byte, error) {
+	if e.example == nil {
+		return e.RSchema.Example()
+	}
+	e.example.once.Do(func() {
+		var b []byte
+		b, e.example.err = e.RSchema.Example()
+		e.example.value = append([]byte(nil), b...)
+	})
+	return e.example.value, e.example.err
 }
 
 func (e ExchangeRegexSchema) MarshalJSON() ([]byte, error) {
@@ -45,9 +69,9 @@ func (e ExchangeRegexSchema) Notation() notation.SchemaNotation {
 
 func NewExchangeRegexSchema(regexStr bytes.Bytes) (*ExchangeRegexSchema, error) {
 	s := regex.New("", regexStr)
-	return &ExchangeRegexSchema{RSchema: s}, nil
+	return &ExchangeRegexSchema{RSchema: s, example: &regexExample{}}, nil
 }
 
 func newExchangeRegexSchema(s *regex.RSchema) *ExchangeRegexSchema {
-	return &ExchangeRegexSchema{RSchema: s}
+	return &ExchangeRegexSchema{RSchema: s, example: &regexExample{}}
 }
